@@ -96,6 +96,15 @@ CHECKS = {
                 note="Trusted: my exact integer oracle (two independent copies, C++ and Python). Coordinates are "
                      "restricted to dyadic values for which all of gdstk's products are exact.",
                 technique="exhaustive enumeration + property-based testing (Hypothesis) vs exact winding-number oracle"),
+    "C15": dict(level="exploration", design="4 C15",
+                text="Generated curve histories (every section kind, relative/absolute, cusps and coincident controls, arcs of any "
+                     "sign/span/eccentricity/rotation, tolerances from 2x the feature size to 1e-6x) judged section by section "
+                     "against my own record of the history: start/end points, every vertex finite and on the analytic curve in "
+                     "order, one-sided Hausdorff deviation <= 2 x tolerance where the property bounds it, commands() spelling "
+                     "vertex-identical to the calls; primitives against exact vertex formulas / the same deviation bound.",
+                note="Trusted: numpy/scipy evaluation of Bezier, ellipse and menu curves in pbt/prop_c15.py. K = 2 (2.5 for fillets, "
+                     "which have no 4-point minimum). Interpolation is judged for passing through its points only.",
+                technique="property-based testing (Hypothesis) against an analytic curve model (validity predicate + deviation bound)"),
     "C16": dict(level="exploration", design="4 C16",
                 text="Model-based histories of library edits (add/remove, three reference kinds, rename by name/pointer, four "
                      "replace overloads, chained tag remaps, deep/shallow copies followed by edits of the copy); after every "
